@@ -317,7 +317,7 @@ def run(ctx):
     here, three-valued, for every whole-path entry of the category table with: the JSON types nbformat's schema admits at
     the path, the `atomic_paths` literal of notebook_config, and the fallback of DiffConfig.is_atomic."""
     ctx.rule('R14.9', 'alignment predicates are reflexive: under y := x no `return False` is reachable before the equality shortcut (symbolic folding of each compare_* function)', floor=12)
-    ctx.rule('R14.8', 'no ValueError other than "unknown program name" can be raised while the configuration is read: the parser swallows ValueError and would silently run unconfigured', floor=2)
+    ctx.rule('R14.8', 'no ValueError other than "unknown program name" can be raised while the configuration is read: the parser swallows ValueError and would silently run unconfigured', floor=1)
     ctx.rule('R14.7', 'in diff_dicts no entry for a key present on both sides is emitted past the differ table: every builder call in the common-key loop is '
              'either the result of the table lookup or lies on the branch where the lookup guard is false (atomic / type change)', floor=2)
     ctx.rule('R14.6', 'key filters stack: diff_ignore_keys filters the output of the very differ it was given, with the key list it was given', floor=2)
